@@ -255,6 +255,40 @@ ssize_t writev(int fd, const struct iovec *iov, int cnt) {
 	return real_writev(fd, iov, cnt);
 }
 
+ssize_t pwritev(int fd, const struct iovec *iov, int cnt, off_t off) {
+	REAL(pwritev, ssize_t (*)(int, const struct iovec *, int, off_t));
+	if (fd_is_watched(fd)) {
+		cp_init();
+		if (cp_point("pwritev", fd_path[fd], 1)) {
+			for (int i = 0; i < cnt; i++) {
+				if (iov[i].iov_len) {
+					syscall(SYS_pwrite64, fd, iov[i].iov_base, iov[i].iov_len / 2, off);
+					break;
+				}
+			}
+			_exit(EXIT_CRASH);
+		}
+	}
+	return real_pwritev(fd, iov, cnt, off);
+}
+
+ssize_t pwritev64(int fd, const struct iovec *iov, int cnt, off64_t off) {
+	REAL(pwritev64, ssize_t (*)(int, const struct iovec *, int, off64_t));
+	if (fd_is_watched(fd)) {
+		cp_init();
+		if (cp_point("pwritev64", fd_path[fd], 1)) {
+			for (int i = 0; i < cnt; i++) {
+				if (iov[i].iov_len) {
+					syscall(SYS_pwrite64, fd, iov[i].iov_base, iov[i].iov_len / 2, off);
+					break;
+				}
+			}
+			_exit(EXIT_CRASH);
+		}
+	}
+	return real_pwritev64(fd, iov, cnt, off);
+}
+
 int rename(const char *a, const char *b) {
 	REAL(rename, int (*)(const char *, const char *));
 	cp_init();
